@@ -2,7 +2,7 @@
     Model: Model/C14_Pheno.v (mirrors G_E_Phenotyping.phenotype/set_h2/set_H2, TruePhenotyping.phenotype,
     MeanPhenotypicBreedingValue.estimate, TrueBreedingValue.estimate). *)
 From Coq Require Import String Permutation Sorted Lqa.
-From PV Require Import Lib.Common Model.C14_Pheno Proofs.C14_Pheno Model.C14_Session Proofs.C14_Session Gen.C14_Kernel Proofs.C14_Kernel.
+From PV Require Import Lib.Common Model.C14_Pheno Proofs.C14_Pheno Model.C14_Session Proofs.C14_Session Gen.C14_Kernel Proofs.C14_Kernel Model.C14_Alias Proofs.C14_Alias.
 Local Open Scope Q_scope.
 
 (** A simulated trial returns exactly one record per taxon, environment and replicate, each carrying that taxon's
@@ -457,6 +457,35 @@ Theorem C14_kernel_estimate_groups : forall ug hg tcols names rows o,
                        (map (fun kv => Some (snd kv)) a).
 Proof. exact kernel_estimate_groups. Qed.
 Print Assumptions C14_kernel_estimate_groups.
+
+(** * Aliasing of the returned tables (Model/C14_Alias.v: a store of label arrays; a population holds the location of its taxa array).
+    The table of G_E_Phenotyping.phenotype is built by numpy.concatenate: a write into its taxa column never reaches an array
+    that existed before the call ... *)
+Theorem C14_ge_table_write_isolated : forall (h : heap) (n : nat) (taxa : option nat) (k i : nat) (v : str) (l : nat), (l < length h)%nat ->
+  let '(h', c) := ge_taxa_column h n taxa k in hread (hwrite h' c i v) l = hread h l.
+Proof. exact ge_column_isolated. Qed.
+Print Assumptions C14_ge_table_write_isolated.
+
+(** ... the same holds for TruePhenotyping.phenotype when the labels are generated (guard: the population has no taxa array) ... *)
+Theorem C14_true_table_write_isolated_partial : forall (h : heap) (n i : nat) (v : str) (l : nat), (l < length h)%nat ->
+  let '(h', c) := tp_taxa_column h n None in hread (hwrite h' c i v) l = hread h l.
+Proof. exact tp_column_isolated_generated. Qed.
+Print Assumptions C14_true_table_write_isolated_partial.
+
+(** ... but with explicit labels the column of the TruePhenotyping table IS the population's array (known finding
+    C14-truepheno-table-shares-labels): a write into the table changes the labels of the population. *)
+Theorem C14_true_table_write_isolated_refuted :
+  exists (h : heap) (l i : nat) (v : str), (l < length h)%nat /\
+    let '(h', c) := tp_taxa_column h 2 (Some l) in hread (hwrite h' c i v) l <> hread h l.
+Proof. exact tp_column_aliases. Qed.
+Print Assumptions C14_true_table_write_isolated_refuted.
+
+(** non-vacuity of the kernel and aliasing statements: a non-empty store and a valid location; an integer nrep stored for two
+    environments; a target in (0,1] with a positive variance *)
+Example C14_kernel_hyps_satisfiable :
+  (0 < length [["b"; "a"]%string])%nat /\ (0 < 2)%nat /\ k_nrep_full 2 3 <> [] /\ 0 < 1 # 2 /\ (1 # 2) <= 1 /\
+  (exists o, estimate false true ["y"%string] ["y"%string] [("a"%string, Some 1%Z, [1])] (Some (Some ["a"%string], None)) = Some o).
+Proof. repeat split; try (cbn; lia); try discriminate; try (eexists; vm_compute; reflexivity). Qed.
 
 (** non-vacuity of the session statements: a concrete 7-operation session (call, in-place genotype and label update,
     coefficient update, copy, nenv reassignment, call) and its observations *)
